@@ -165,7 +165,37 @@ def aliased(seed):
     return es, vs, t
 
 
+def shared_init(kind):
+    def f(seed):
+        """Every vertex of a kind is initialised with the SAME pose object (a common idiom: one identity/origin object as initial guess for all);
+        the first pose vertex and one landmark are fixed."""
+        es, vs, t = make(kind, seed, n_poses=4, n_landmarks=2, closures=1, parallel=False)
+        first = {}
+        for v in vs:
+            key = type(v.pose)
+            if key not in first:
+                first[key] = v.pose
+            v.pose = first[key]
+        vs[0].fixed = True
+        vs[-1].fixed = True
+        return es, vs, t
+    return f
+
+
+def lonely(kind):
+    def f(seed):
+        """A well-posed graph plus one FREE vertex that no edge names: its rows of the Hessian are exactly zero (exactly singular solve)."""
+        es, vs, t = make(kind, seed, n_poses=4, n_landmarks=1, closures=1)
+        vs.insert(2, Vertex(777, rand_pose(kind, random.Random(seed + 1))))
+        return es, vs, t
+    return f
+
+
 TEMPLATES = {
+    'r2lonely': lonely('R2'),
+    'se3lonely': lonely('SE3'),
+    'se2shared': shared_init('SE2'),
+    'r3shared': shared_init('R3'),
     'se2alias': aliased,
     'r2': lambda s: make('R2', s, n_landmarks=1, custom=False),
     'r3': lambda s: make('R3', s, n_landmarks=1),
